@@ -7,7 +7,7 @@ import struct
 import core
 from core import cz, cb, clist, copt
 
-HDR = ('From Hts Require Import Base.Prim Base.DecBase Generated Model.DecText Model.DecBam Model.DecIndex Model.DecCram Model.DecBgzf.\n'
+HDR = ('From Hts Require Import Base.Prim Base.DecBase Generated Model.DecText Model.DecBam Model.DecIndex Model.DecCram Model.DecBgzf Model.DecSam Model.DecQuery.\n'
        'Open Scope Z_scope.')
 
 ACC = ('Record.End', 'Record.Bin', 'Record.Len', 'Cigar.String', 'Cigar.IsValid', 'Cigar.Lengths', 'Seq.Expand', 'Aux.Tag', 'Aux.Type', 'Aux.Kind',
@@ -151,6 +151,13 @@ def terms_for(c, o):
     if op == 'auxval':
         return [('text', 'TAuxVal %s %s %s %s %s %s' % (bl(x), cb(post(o, 'Aux.Type')), cb(post(o, 'Aux.Kind')), cb(post(o, 'Aux.Value')), cb(post(o, 'Aux.String')),
                                                        cb(post(o, 'Aux.Tag'))))]
+    if op == 'samrec':
+        if b'\n' in x:
+            return []
+        r = o.get('rec') or {}
+        accp = any(p['r'] != 'ok' and p['name'] in ACC for p in o.get('post', []))
+        return [('sam', 'SRecord %s %d %s %s %s %s %s %s %s' % (bl(x), cl, cb(cl != 1), cz(r.get('ncig', 0)), cz(r.get('lseq', 0)), cz(r.get('nseq', 0)),
+                                                             cz(r.get('nqual', 0)), clist(r.get('aux', [])), cb(accp)))]
     if op == 'hdrtext':
         return [('text', 'THeader %s %d' % (bl(x), cl))]
     if op == 'hdrbin':
@@ -162,10 +169,13 @@ def terms_for(c, o):
         if blocks is None:
             return []
         recs = o.get('recs') or []
+        whole = []
+        if len(recs) < 64 and len(x) < 6000:
+            whole = [('sam', 'SBam %s %d %d %d' % (bl(x), c.get('omit', 0), 0, len(recs)))]
         anyp = any(p['r'] != 'ok' and p['name'] in ACC for p in o.get('post', []))
         if anyp and len(recs) != 1:
             return []
-        out = []
+        out = list(whole)
         for i, blk in enumerate(blocks):
             if blk is None:
                 break
@@ -183,9 +193,17 @@ def terms_for(c, o):
     if op in ('bai', 'tbi', 'csi'):
         if o.get('nil'):
             return [('idx', 'IBai [] 0 1')]      # a nil index for an accepted file never agrees with the model
+        extra = []
+        if op == 'csi' and cl == 0 and (o.get('nref') or 0) > 0 and len(x) >= 12:
+            ms, dp = struct.unpack_from('<ii', x, 4)
+            for p in o.get('post', []):
+                m = re.fullmatch(r'Chunks\((-?\d+),(-?\d+)\)', p['name'])
+                if m:
+                    extra.append(('query', 'QCsi %s %s %s %s %s' % (cz(ms), cz(dp), cz(int(m.group(1))), cz(int(m.group(2))), cb(p['r'] == 'hang'))))
+            extra = extra[:10]
         ctor = {'bai': 'IBai', 'tbi': 'ITbi', 'csi': 'ICsi'}[op]
         nref = o.get('nref', o.get('nnames', 0)) if op != 'tbi' else o.get('nnames', 0)
-        return [('idx', '%s %s %d %s' % (ctor, bl(x), cl, cz(nref or 0)))]
+        return [('idx', '%s %s %d %s' % (ctor, bl(x), cl, cz(nref or 0)))] + extra
     if op == 'fai':
         if b'"' in x or b'\r' in x or x.count(b'\n') != 1 or not x.endswith(b'\n'):
             return []
@@ -213,7 +231,7 @@ def terms_for(c, o):
     return []
 
 
-FAM = {'bgzf': ('c11bgzf', 'c11bgzf_agree'), 'text': ('c11text', 'c11text_agree'), 'bam': ('c11bam', 'c11bam_agree'), 'idx': ('c11idx', 'c11idx_agree'), 'cram': ('c11cram', 'c11cram_agree')}
+FAM = {'query': ('c11query', 'c11query_agree'), 'sam': ('c11sam', 'c11sam_agree'), 'bgzf': ('c11bgzf', 'c11bgzf_agree'), 'text': ('c11text', 'c11text_agree'), 'bam': ('c11bam', 'c11bam_agree'), 'idx': ('c11idx', 'c11idx_agree'), 'cram': ('c11cram', 'c11cram_agree')}
 
 
 CAP = {'quick': 100, 'thorough': 1500}
@@ -257,7 +275,7 @@ def correspond(cases, obs, labels=None, tier='quick'):
         b, e = core.coq_mismatches(HDR, FAM[fam][0], FAM[fam][1], [t for _, t in items], 'c11' + fam, shard=260, jobs=5)
         return fam, b, e
 
-    with ThreadPoolExecutor(max_workers=5) as ex:
+    with ThreadPoolExecutor(max_workers=7) as ex:
         for fam, b, e in ex.map(one, list(FAM)):
             items = by[fam]
             n += len(items)
